@@ -1036,6 +1036,10 @@ M('C05', 'speigs dense fallback: selection applied directly (equivalent)', 'tenp
             return W[keep]""", """            W = np.linalg.eigvals(Amat)
             return W[misc.argsort(W, which)[:k]]""", None, expect='silent')
 
+M('C14', 'TDVP basis expansion reads the non-existent Krylov_options (original defect)', TDVP,
+  "self.Krylov_params.subconfig('apply_mpo_options')", "self.Krylov_options.subconfig('apply_mpo_options')",
+  'ATTR-defined')
+
 # ---------------------------------------------------------------- C16 / C19
 M('C16', 'GMRES restart: relative residual norm used for normalisation (round-3 seed b)', KRY,
   """        self.total_error.append([npc.norm(self.rs[-1]) / self.b_norm])
